@@ -97,11 +97,49 @@ fn check_joined<F: Fn(&mut String, &[Item<'static>]) -> std::fmt::Result>(acc: &
 
 fn must_fail<F: Fn(&mut String) -> std::fmt::Result>(acc: &mut Acc, fmt: &str, what: &str, f: F) {
     let mut s = String::new();
-    acc.transitions += 1;
-    match guard(|| f(&mut s)) {
+    acc.transitions += 2;
+    let r = guard(|| f(&mut s));
+    // a rendering that failed must leave nothing behind for the next one on this thread
+    let after = guard(|| NaiveDate::from_ymd_opt(2001, 7, 8).unwrap().and_hms_opt(0, 34, 59).unwrap().format("%Y-%m-%d %H:%M:%S").to_string());
+    if after.as_deref() != Ok("2001-07-08 00:34:59") {
+        acc.violation("format:after-a-failed-rendering", format!("a valid rendering right after {}.format({:?}) failed", what, fmt), "\"2001-07-08 00:34:59\"".into(), format!("{:?}", after));
+    }
+    match r {
         Ok(Err(_)) => acc.hit_nt(FERR),
         Ok(Ok(())) => acc.violation("format:should-fail", format!("{}.format({:?})", what, fmt), "Err(fmt::Error) (unknown specifier, misplaced modifier, or a field the value does not have)".into(), format!("Ok: {:?}", s)),
         Err(p) => acc.violation("format:panic", format!("write!(s, \"{{}}\", {}.format({:?}))", what, fmt), "Err(fmt::Error)".into(), format!("panic: {}", p)),
+    }
+}
+
+/// renderings whose order could matter to a hidden cache: composite before padded numeric specifiers in one format
+/// string, and the same offset rendered through `Utc` and through `FixedOffset(0)` in alternation
+fn orderings(acc: &mut Acc) {
+    let ndt = NaiveDate::from_ymd_opt(2001, 7, 8).unwrap().and_hms_nano_opt(0, 34, 59, 26_490_708).unwrap();
+    let pieces: [(&str, &str); 10] = [("%F", "2001-07-08"), ("%T", "00:34:59"), ("%D", "07/08/01"), ("%R", "00:34"), ("%-d", "8"), ("%_H", " 0"), ("%0e", "08"), ("%-j", "189"), ("%_m", " 7"), ("%-I", "12")];
+    for &i in &pair_order(pieces.len()) {
+        for &j in &[(i + 1) % pieces.len(), (i + 4) % pieces.len(), i] {
+            let f = format!("{} {}", pieces[i].0, pieces[j].0);
+            let want = format!("{} {}", pieces[i].1, pieces[j].1);
+            acc.transitions += 1;
+            let got = guard(|| {
+                let mut o = String::new();
+                write!(o, "{}", ndt.format(&f)).map(|_| o)
+            });
+            if got != Ok(Ok(want.clone())) {
+                acc.violation("format:piece-order", format!("{:?}.format({:?})", ndt, f), want, format!("{:?}", got));
+            }
+        }
+    }
+    let u: DateTime<Utc> = Utc.from_utc_datetime(&ndt);
+    let f0: DateTime<FixedOffset> = FixedOffset::east_opt(0).unwrap().from_utc_datetime(&ndt);
+    let f5: DateTime<FixedOffset> = FixedOffset::east_opt(19_800).unwrap().from_utc_datetime(&ndt);
+    for k in 0..6 {
+        acc.transitions += 3;
+        let got = guard(|| if k % 2 == 0 { (u.format("%Z %:z").to_string(), f0.format("%Z %:z").to_string(), f5.format("%Z").to_string()) } else { (f0.format("%Z %:z").to_string(), u.format("%Z %:z").to_string(), f5.format("%Z").to_string()) });
+        let want = if k % 2 == 0 { ("UTC +00:00".to_string(), "+00:00 +00:00".to_string(), "+05:30".to_string()) } else { ("+00:00 +00:00".to_string(), "UTC +00:00".to_string(), "+05:30".to_string()) };
+        if got != Ok(want.clone()) {
+            acc.violation("format:%Z-alternation", "DateTime<Utc> and DateTime<FixedOffset>(+00:00) formatted with \"%Z %:z\" in alternation".into(), format!("{:?}", want), format!("{:?}", got));
+        }
     }
 }
 
@@ -382,6 +420,7 @@ fn main() {
             acc.traces += 1;
         } else if u == n_y + n_off + small.len() as u64 {
             failures(acc);
+            orderings(acc);
             acc.traces += 1;
             acc.sample(|| "unknown specifier / misplaced modifier / missing field: write!(s, \"{}\", value.format(\"%-b\")) must be Err".to_string());
         } else if u == n_y + n_off + small.len() as u64 + 1 {
